@@ -494,11 +494,77 @@ func (e *engine) addType(r *lib.Rng, a octosql.Type, kind string) {
 	})
 }
 
+// shapesIn collects the field counts of the structs and the arities of the tuples that occur anywhere in v.
+func shapesIn(v octosql.Value, structs, tuples map[int]bool) {
+	switch v.TypeID {
+	case octosql.TypeIDList:
+		for _, x := range v.List {
+			shapesIn(x, structs, tuples)
+		}
+	case octosql.TypeIDStruct:
+		structs[len(v.Struct)] = true
+		for _, x := range v.Struct {
+			shapesIn(x, structs, tuples)
+		}
+	case octosql.TypeIDTuple:
+		tuples[len(v.Tuple)] = true
+		for _, x := range v.Tuple {
+			shapesIn(x, structs, tuples)
+		}
+	}
+}
+
+// valueClash: does v hold a list under which structs of several field counts or of two or more fields (Value.Type
+// names every field "", so such struct types never have strictly ascending names) or tuples of several arities
+// occur?  Then Value.Type sums types of different shapes.  Decided on the value alone.
+func valueClash(v octosql.Value) bool {
+	switch v.TypeID {
+	case octosql.TypeIDList:
+		structs, tuples := map[int]bool{}, map[int]bool{}
+		for _, x := range v.List {
+			shapesIn(x, structs, tuples)
+		}
+		if len(structs) > 1 || len(tuples) > 1 {
+			return true
+		}
+		for n := range structs {
+			if n >= 2 {
+				return true
+			}
+		}
+		for _, x := range v.List {
+			if valueClash(x) {
+				return true
+			}
+		}
+	case octosql.TypeIDStruct:
+		for _, x := range v.Struct {
+			if valueClash(x) {
+				return true
+			}
+		}
+	case octosql.TypeIDTuple:
+		for _, x := range v.Tuple {
+			if valueClash(x) {
+				return true
+			}
+		}
+	}
+	return false
+}
+
 func (e *engine) addValue(v octosql.Value) {
 	e.guarded(nil, "Value.Type of "+v.String(), func() {
 		t := v.Type()
-		e.cf.Add(fmt.Sprintf("CValue %s %s", lib.CoqValue(v), coqType(t)), map[string]interface{}{"kind": "value", "value": lib.ValueJSON(v), "type": show(t)},
-			v.TypeID >= octosql.TypeIDList)
+		js := map[string]interface{}{"kind": "value", "value": lib.ValueJSON(v), "type": show(t)}
+		e.cf.Add(fmt.Sprintf("CValue %s %s", lib.CoqValue(v), coqType(t)), js, v.TypeID >= octosql.TypeIDList)
+		clash := valueClash(v)
+		idx := e.cf.Add(fmt.Sprintf("CValueType %s %s", lib.CoqValue(v), coqType(t)),
+			map[string]interface{}{"kind": "value_inhabits_its_type", "value": lib.ValueJSON(v), "type": show(t), "shape_clash": clash}, v.TypeID >= octosql.TypeIDList)
+		if clash {
+			e.cf.SetClass(idx, classStructMerge)
+			e.cf.Count("value_in_known_class")
+		}
 		e.cf.Count("value")
 	})
 }
@@ -530,12 +596,12 @@ func main() {
 			}
 		}
 	} else {
-		for i := 0; i < 170; i++ {
+		for i := 0; i < 400; i++ {
 			r := rng.Fork()
 			e.addPair(r, small[r.Intn(len(small))], small[r.Intn(len(small))], "small")
 		}
 	}
-	nPairs, nTypes, nValues := f.Cases(130, 1500), f.Cases(60, 600), f.Cases(120, 1200)
+	nPairs, nTypes, nValues := f.Cases(250, 2000), f.Cases(100, 800), f.Cases(200, 1600)
 	for i := 0; i < nPairs; i++ {
 		r := rng.Fork()
 		messy := r.Chance(1, 4)
